@@ -1,32 +1,32 @@
 /- REGENERATED from /repo on every run by /verif/harness/cmd/extract — do not edit. -/
 namespace Ibx.Gen.Dot
 
-/-- format of the first fmt.Sprintf that Deliver's MultiReader reads (fmt.Sprintf#0): some "Return-Path: <%s>\r\n" -/
+/-- format (+ arguments form of the Sprintf / concatenation) of the first built string that Deliver's MultiReader reads (format#0): some "Return-Path: <%s>\r\n" -/
 def returnPathFmt : Option (List Nat) := some [82, 101, 116, 117, 114, 110, 45, 80, 97, 116, 104, 58, 32, 60, 37, 115, 62, 13, 10]
 
 /-- its arguments ($p<i> = i-th parameter of Deliver) -/
 def returnPathArgs : List String := ["$p0.Address.Address"]
 
-/-- format of the second one (fmt.Sprintf#1): some "%s  for <%s>; %s\r\n" -/
+/-- format of the second one (format#1): some "%s  for <%s>; %s\r\n" -/
 def recvdFmt : Option (List Nat) := some [37, 115, 32, 32, 102, 111, 114, 32, 60, 37, 115, 62, 59, 32, 37, 115, 13, 10]
 
 /-- its arguments -/
 def recvdArgs : List String := ["$p2", "$each($v.Mailboxes)", "$outer(time.Now().UTC().Format(recvdTimeFmt))"]
 
 /-- the readers concatenated into the stored source, in order -/
-def multiReaderArgs : Option (List String) := some ["strings.NewReader(fmt.Sprintf#0)", "strings.NewReader(fmt.Sprintf#1)", "bytes.NewReader($p3)"]
+def multiReaderArgs : Option (List String) := some ["strings.NewReader(format#0)", "strings.NewReader(format#1)", "bytes.NewReader($p3)"]
 
 /-- time layout of the Received timestamp (package-level constant recvdTimeFmt; rendered in UTC: fixed width) -/
 def recvdTimeFmt : Option String := some "Mon, 02 Jan 2006 15:04:05 -0700 (MST)"
 
-/-- format of the fmt.Sprintf the DATA handler passes to Deliver (fmt.Sprintf#hdr): some "Received: from %s ([%s]) by %s\r\n" -/
+/-- format of the built string the DATA handler passes to Deliver (format#hdr): some "Received: from %s ([%s]) by %s\r\n" -/
 def recvdHeaderFmt : Option (List Nat) := some [82, 101, 99, 101, 105, 118, 101, 100, 58, 32, 102, 114, 111, 109, 32, 37, 115, 32, 40, 91, 37, 115, 93, 41, 32, 98, 121, 32, 37, 115, 13, 10]
 
 /-- its arguments ($r = the session) -/
 def recvdHeaderArgs : List String := ["$r.remoteDomain", "$r.remoteHost", "$r.config.Domain"]
 
 /-- what the DATA handler passes to Deliver, each argument traced to where it comes from (locals and the block-reading helper looked through) -/
-def deliverArgs : Option (List String) := some ["$r.from", "$r.recipients", "fmt.Sprintf#hdr", "bytes.NewBuffer($r.text.ReadDotBytes()#0).Bytes()"]
+def deliverArgs : Option (List String) := some ["$r.from", "$r.recipients", "format#hdr", "$r.text.ReadDotBytes()#0"]
 
 /-- arguments of <scanner>.Buffer in the helper behind RETR (none = default 64 KiB token limit, or not recognised); $p = a parameter of the helper -/
 def sendMessageBuffer : Option (List String) := some ["nil", "int($p.Size()) + 1"]
